@@ -173,6 +173,9 @@ func atGenTable(r *vc.Rand, name, pkKind string, kinds []string, nv, nrows int, 
 		t.Def.PK = []int{add(mm.Column{Name: "id", T: mm.TInt, Bits: 64, AutoInc: true, ColType: "bigint(20)"}, "pk")}
 	case "varchar":
 		t.Def.PK = []int{add(mm.Column{Name: "code", T: mm.TChar, Len: 32, ColType: "varchar(32)"}, "pk")}
+	case "varchar_colon":
+		// key values that contain the separator between table name and keys of the lock-key text
+		t.Def.PK = []int{add(mm.Column{Name: "mac", T: mm.TChar, Len: 32, ColType: "varchar(32)"}, "pk")}
 	case "composite_txt":
 		// two text parts whose values run into each other when glued together without a separator
 		a := add(mm.Column{Name: "t1", T: mm.TChar, Len: 8, ColType: "varchar(8)"}, "pk")
@@ -213,6 +216,8 @@ func atGenTable(r *vc.Rand, name, pkKind string, kinds []string, nv, nrows int, 
 					row[ci] = fmt.Sprintf("K%02d", i+1)
 				case "bk":
 					row[ci] = []byte(fmt.Sprintf("b%02dz", i+1))
+				case "mac":
+					row[ci] = fmt.Sprintf("aa:bb:%02d", i+1)
 				case "t1", "t2":
 					// rows 2p and 2p+1: (x, yz) and (xy, z)
 					x, y, z := string(rune('a'+i/2)), string(rune('b'+i/2)), string(rune('c'+i/2))
@@ -451,6 +456,8 @@ func atGenInsert(r *vc.Rand, t *atTable, o atStmtOpts, nrows int, seq *int) atSt
 					v = "q"
 				case "bk":
 					v = []byte(fmt.Sprintf("n%02dz", *seq))
+				case "mac":
+					v = fmt.Sprintf("cc:dd:%03d", *seq)
 				case "ka":
 					v = int64(5000 + *seq)
 				}
@@ -518,6 +525,8 @@ func atInsertedRow(t *atTable, seq int) []interface{} {
 			row[ci] = "q"
 		case "bk":
 			row[ci] = []byte(fmt.Sprintf("n%02dz", seq))
+		case "mac":
+			row[ci] = fmt.Sprintf("cc:dd:%03d", seq)
 		case "ka":
 			row[ci] = int64(5000 + seq)
 		}
@@ -554,6 +563,8 @@ func atGenUpsert(r *vc.Rand, t *atTable, o atStmtOpts, hit bool, seq *int) atStm
 					v = "r"
 				case "bk":
 					v = []byte(fmt.Sprintf("u%02dz", *seq))
+				case "mac":
+					v = fmt.Sprintf("ee:ff:%03d", *seq)
 				case "ka":
 					v = int64(7000 + *seq)
 				}
@@ -628,6 +639,8 @@ func atGenUpsertMulti(r *vc.Rand, t *atTable, o atStmtOpts, seq *int) atStmt {
 						v = int64(9000 + *seq)
 					case "bk":
 						v = []byte(fmt.Sprintf("m%02dz", *seq))
+					case "mac":
+						v = fmt.Sprintf("ab:cd:%03d", *seq)
 					}
 				}
 			} else {
